@@ -16,7 +16,9 @@ DEFAULT_TOL = ("exact",)
 RULE = ("family poling: a fixed lattice of kinds × widths × edge positions, then seeded random kinds/widths/positions (incl. ±1, ±0, "
         "just outside, infinities ⇒ panic class); 401/4001 positions per window for the evenness/range clauses; random sample lists for "
         "interpolation; periods giving 1…10^5 domains (exact multiples included) × all window kinds; random op sequences of length 1–8 "
-        "over {new, with_period, assign_period, set_apodization, with_apodization} with zero, negative, infinite and extreme periods")
+        "over {new, with_period, assign_period, set_apodization, with_apodization} with zero, negative, infinite and extreme periods; "
+        "3 of 4 periods come from a small per-sequence pool of magnitudes with random signs (exact repeats and pure sign flips), "
+        "sequences 1–12 ops; SPDC::assign_poling_period / with_poling_period histories on the same pool")
 RESIDUAL = "floating-point rounding of the window values and of acos(1−2a²) (measured by the comparison, not proved)"
 
 
